@@ -1,4 +1,5 @@
 import PhreeqcVerif.Lemmas.Gamma
+import PhreeqcVerif.Gen.GammaSrc
 import Mathlib.Tactic.Ring
 import Mathlib.Tactic.Linarith
 import Mathlib.Tactic.FieldSimp
@@ -641,11 +642,11 @@ of all molalities in the species list — the definition of the osmotic coeffici
 theorem aw_from_phi (f : TransFns Rat) (x : PzIn Rat) (y : SitIn Rat) :
     letI := ratOps f
     (pitzer x).aw = f.exp (-((pitzer x).osum * (pitzer x).cosmot) / (5550837 / 100000)) ∧
-    (pitzer x).osum = sumTo x.n x.m ∧
+    (pitzer x).osum = sumTo x.n x.m ∧ (pitzer x).cosmot = 1 + 2 * (pitzer x).osmot / (pitzer x).osum ∧
     (sit y).aw = f.exp (-((sit y).osum * (sit y).cosmot) / (5550837 / 100000)) ∧
     (sit y).osum = sumTo y.n y.m := by
-  refine ⟨?_, rfl, ?_, rfl⟩
-  · simp only [pitzer, rat_exp, rat_lit]; congr 1; ring
+  refine ⟨?_, rfl, rfl, ?_, rfl⟩
+  · simp only [pitzer, pitzerP, rat_exp, rat_lit]; congr 1; ring
   · simp only [sit, rat_exp, rat_lit]; congr 1; ring
 
 /-- `(φ − 1)·Σm = 2·OSMOT`: the quantity the Gibbs–Duhem identity is about (partial: needs `Σm ≠ 0`, otherwise the
@@ -695,5 +696,548 @@ example : letI := dualOps ⟨id, id, id, id, id, id, id, id, id, id⟩
   refine ⟨?_, ?_⟩ <;>
     norm_num [osmotConst, osConst, lgammaConst, constTerms, lnTermsConst, csumOf, addTerms, Dual.const]
 
+
+/-! ## Gibbs–Duhem for the whole `pitzer()` skeleton -/
+
+section full
+variable (f : TransFns Rat)
+
+@[simp] theorem d_sqrt_re (x : Dual) : (@NumOps.sqrt Dual (dualOps f) x).re = f.sqrt x.re := rfl
+@[simp] theorem d_sqrt_eps (x : Dual) : (@NumOps.sqrt Dual (dualOps f) x).eps = x.eps / (2 * f.sqrt x.re) := rfl
+@[simp] theorem d_ln_re (x : Dual) : (@NumOps.ln Dual (dualOps f) x).re = f.ln x.re := rfl
+@[simp] theorem d_ln_eps (x : Dual) : (@NumOps.ln Dual (dualOps f) x).eps = x.eps / x.re := rfl
+
+/-- Debye–Hückel part: `Σ_k m_k z_k² · dF = 2 I · dF = d(2 · OSMOT₀)` for `F = fDH`, with `√I · √I = I`
+(hypothesis on the uninterpreted `sqrt`) and the derivative rules of `sqrt`, `ln` carried by the dual numbers -/
+theorem dh_gd (a0 I dI : Rat) (hs : f.sqrt I * f.sqrt I = I) (hs0 : f.sqrt I ≠ 0)
+    (hb : 1 + 12 / 10 * f.sqrt I ≠ 0) :
+    letI := dualOps f
+    2 * I * (fDH (Dual.const a0) (sqrt (Dual.mk I dI)) (lit (12 / 10))).eps
+      = 2 * (osmot0 (Dual.const a0) (Dual.mk I dI) (sqrt (Dual.mk I dI))).eps := by
+  simp only [fDH, osmot0, d_mul_eps, d_mul_re, d_div_eps, d_div_re, d_add_eps, d_add_re, d_neg_re, d_neg_eps,
+    d_const_re, d_const_eps, d_lit_re, d_lit_eps, d_sqrt_re, d_sqrt_eps, d_ln_re, d_ln_eps, d_mk_re, d_mk_eps]
+  set s := f.sqrt I with hsdef
+  have hI : I = s * s := hs.symm
+  have hb2 : (10 : Rat) + 12 * s ≠ 0 := by
+    intro h; apply hb; linarith
+  have hb3 : (10 : Rat) + s * 12 ≠ 0 := by rw [mul_comm]; exact hb2
+  have hb4 : (1 : Rat) + 12 / 10 * s ≠ 0 := hb
+  rw [hI]
+  field_simp
+  ring
+
+/-- first-order parts of the ionic-strength functions of one parameter -/
+structure DData where
+  dg : Rat
+  dgp : Rat
+  dex : Rat
+  dE : Rat
+  dEp : Rat
+
+/-- a parameter over the dual numbers: constant coefficients, ionic-strength functions with first-order parts -/
+def PParam.toDualI (p : PParam Rat) (q : DData) : PParam Dual :=
+  { type := p.type, i0 := p.i0, i1 := p.i1, i2 := p.i2, p := .const p.p, c0den := .const p.c0den,
+    ln0 := .const p.ln0, ln1 := .const p.ln1, ln2 := .const p.ln2, os := .const p.os, g := ⟨p.g, q.dg⟩,
+    gp := ⟨p.gp, q.dgp⟩, ex := ⟨p.ex, q.dex⟩, etheta := ⟨p.etheta, q.dE⟩, ethetap := ⟨p.ethetap, q.dEp⟩ }
+
+/-- the derivative relations the code relies on, as hypotheses on the numbers a parameter carries at ionic strength
+`I` with variation `dI`: `d g(α√I) = GP(α√I)/I · dI` (the code's `GP(y)` is `y g′(y)/2`), `exp(−α√I) = G + GP` (proved
+for the coded `G`, `GP` in `g_gp_exp_partial`) together with its variation, and `d(ᴱθ) = ᴱθ′ dI` (the code's
+`etheta` / `ethetap` pair) -/
+def IRel (I dI : Rat) (p : PParam Rat) (q : DData) : Prop :=
+  q.dg = p.gp * dI / I ∧ p.ex = p.g + p.gp ∧ q.dex = q.dg + q.dgp ∧ q.dE = p.ethetap * dI
+
+theorem toDualI_const (p : PParam Rat) (q : DData) (mD : Nat → Dual) (bigZ : Dual) (present : Nat → Bool) :
+    letI := dualOps f
+    lnTermsConst (p.toDualI q) mD bigZ present = lnTermsConst p.toDual mD bigZ present ∧
+    osConst (p.toDualI q) mD bigZ present = osConst p.toDual mD bigZ present ∧
+    csumOf (p.toDualI q) mD = csumOf p.toDual mD := by
+  obtain ⟨ty, i0, i1, i2, pp, cden, l0, l1, l2, os, g, gp, ex, et, etp⟩ := p
+  cases ty <;> exact ⟨rfl, rfl, rfl⟩
+
+theorem isZero_const (a : Rat) : letI := dualOps f; isZero (Dual.const a) = true ↔ a = 0 := by
+  simp only [isZero, Bool.and_eq_true]
+  constructor
+  · intro ⟨h1, h2⟩
+    exact le_antisymm (of_decide_eq_true h1) (of_decide_eq_true h2)
+  · intro h; subst h
+    exact ⟨decide_eq_true (le_refl (0 : Rat)), decide_eq_true (le_refl (0 : Rat))⟩
+
+/-- one parameter, ionic-strength-dependent part: `Σ_k m_k · ε(additions to LGAMMA[k])`, plus its share `2I · ε(F_var)`
+of `Σ_k m_k z_k² F`, equals `ε(2 · its addition to OSMOT)` -/
+theorem param_gd_I (p : PParam Rat) (q : DData) (I dI : Rat) (hI : I ≠ 0) (hr : IRel I dI p q)
+    (m d : Nat → Rat) (ue : Bool) :
+    letI := dualOps f
+    wsum m (lnTermsI (p.toDualI q) (fun k => Dual.mk (m k) (d k)) ue)
+        + 2 * I * (fVar (p.toDualI q) (fun k => Dual.mk (m k) (d k)) (Dual.mk I dI) ue).eps
+      = 2 * (osI (p.toDualI q) (fun k => Dual.mk (m k) (d k)) (Dual.mk I dI) ue).eps := by
+  let _i : NumOps Dual := dualOps f
+  obtain ⟨h1, h2, h3, h4⟩ := hr
+  obtain ⟨ty, i0, i1, i2, pp, cden, l0, l1, l2, os, g, gp, ex, et, etp⟩ := p
+  obtain ⟨dg, dgp, dex, dE, dEp⟩ := q
+  simp only at h1 h2 h3 h4
+  cases ty
+  case b1 =>
+    by_cases hz : pp = 0
+    · have : isZero (Dual.const pp) = true := (isZero_const f pp).mpr hz
+      simp [lnTermsI, osI, fVar, PParam.toDualI, this, wsum]
+    · have : isZero (Dual.const pp) = false := by
+        rw [Bool.eq_false_iff]; intro h; exact hz ((isZero_const f pp).mp h)
+      subst h1 h2 h3
+      simp [lnTermsI, osI, fVar, PParam.toDualI, this, wsum]
+      field_simp
+      ring
+  case b2 =>
+    by_cases hz : pp = 0
+    · have : isZero (Dual.const pp) = true := (isZero_const f pp).mpr hz
+      simp [lnTermsI, osI, fVar, PParam.toDualI, this, wsum]
+    · have : isZero (Dual.const pp) = false := by
+        rw [Bool.eq_false_iff]; intro h; exact hz ((isZero_const f pp).mp h)
+      subst h1 h2 h3
+      simp [lnTermsI, osI, fVar, PParam.toDualI, this, wsum]
+      field_simp
+      ring
+  case etheta =>
+    subst h4
+    cases ue <;> simp [lnTermsI, osI, fVar, PParam.toDualI, wsum]
+    ring
+  all_goals simp [lnTermsI, osI, fVar, PParam.toDualI, wsum]
+
+theorem lnTermsI_idx (n : Nat) (p : PParam Rat) (q : DData) (h : p.wf n) (mD : Nat → Dual) (ue : Bool) :
+    letI := dualOps f
+    ∀ t ∈ lnTermsI (p.toDualI q) mD ue, t.1 < n := by
+  let _i : NumOps Dual := dualOps f
+  obtain ⟨h0, h1, _⟩ := h
+  obtain ⟨ty, i0, i1, i2, pp, cden, l0, l1, l2, os, g, gp, ex, et, etp⟩ := p
+  intro t ht
+  cases ty <;> simp only [lnTermsI, PParam.toDualI] at ht
+  case b1 =>
+    cases hz : isZero (Dual.const pp) <;> simp [hz] at ht
+    rcases ht with rfl | rfl <;> assumption
+  case b2 =>
+    cases hz : isZero (Dual.const pp) <;> simp [hz] at ht
+    rcases ht with rfl | rfl <;> assumption
+  case etheta =>
+    cases ue <;> simp at ht
+    rcases ht with rfl | rfl <;> assumption
+  all_goals simp at ht
+
+/-- the input of `pitzer()` over the dual numbers built from rational data: molalities `m_k + d_k ε`, ionic strength
+`I + dI ε`, constant charges / `A0` / MacInnes parameters, parameters with their ionic-strength functions -/
+def dualInput (n : Nat) (m d z : Nat → Rat) (I dI a0 mt : Rat) (icon : Bool) (ic : Nat) (ue : Bool)
+    (mc0 mc1 mcc : Option Rat) (ps : List (PParam Rat × DData)) : PzIn Dual :=
+  { n := n, m := fun k => Dual.mk (m k) (d k), z := fun k => Dual.const (z k), mu := Dual.mk I dI, a0 := Dual.const a0,
+    minTotal := Dual.const mt, icon := icon, ic := ic, useEtheta := ue, mcb0 := mc0.map Dual.const,
+    mcb1 := mc1.map Dual.const, mcc0 := mcc.map Dual.const, ps := ps.map fun pq => pq.1.toDualI pq.2 }
+
+theorem sum_params_full (neutral : Nat → Bool) (ps : List (PParam Rat × DData)) (I dI : Rat) (hI : I ≠ 0)
+    (ht : ∀ pq ∈ ps, pq.1.tidy f neutral) (hr : ∀ pq ∈ ps, IRel I dI pq.1 pq.2)
+    (m d : Nat → Rat) (bigZ : Dual) (present : Nat → Bool) (ue : Bool) :
+    letI := dualOps f
+    (ps.map fun pq => wsum m (lnTermsConst (pq.1.toDualI pq.2) (fun k => Dual.mk (m k) (d k)) bigZ present
+        ++ lnTermsI (pq.1.toDualI pq.2) (fun k => Dual.mk (m k) (d k)) ue)).sum
+      + bigZ.re * (ps.map fun pq => (csumOf (pq.1.toDualI pq.2) (fun k => Dual.mk (m k) (d k))).eps).sum
+      + 2 * I * (ps.map fun pq => (fVar (pq.1.toDualI pq.2) (fun k => Dual.mk (m k) (d k)) (Dual.mk I dI) ue).eps).sum
+      = 2 * (ps.map fun pq => (osConst (pq.1.toDualI pq.2) (fun k => Dual.mk (m k) (d k)) bigZ present
+            + osI (pq.1.toDualI pq.2) (fun k => Dual.mk (m k) (d k)) (Dual.mk I dI) ue).eps).sum := by
+  let _i : NumOps Dual := dualOps f
+  induction ps with
+  | nil => simp
+  | cons pq ps ih =>
+    have h1 := param_gd f neutral pq.1 (ht pq (by simp)) m d bigZ present
+    have h2 := param_gd_I f pq.1 pq.2 I dI hI (hr pq (by simp)) m d ue
+    obtain ⟨e1, e2, e3⟩ := toDualI_const f pq.1 pq.2 (fun k => Dual.mk (m k) (d k)) bigZ present
+    have ih' := ih (fun q hq => ht q (by simp [hq])) (fun q hq => hr q (by simp [hq]))
+    simp only [List.map_cons, List.sum_cons, wsum_append, d_add_eps] at *
+    rw [e1, e2, e3]
+    linarith
+
+/-- **Gibbs–Duhem for the whole `pitzer()` skeleton** (`patm_x ≤ 1`): Debye–Hückel `F`, β⁰, β¹·g, β²·g, Cφ, θ, ᴱθ, λ,
+ψ, ζ, μ, η, the `z·CSUM` and `z²·F` terms and the MacInnes scaling, for every parameter list, composition `m`,
+direction `d`, variation `dI` of the ionic strength and presence pattern:
+
+  `Σ_k m_k · d(LGAMMA[k]) = d(2 · OSMOT)`      (`2·OSMOT = (COSMOT − 1)·OSUM`, see `aw_from_phi`)
+
+Hypotheses, all explicit: `2I = Σ m_k z_k²` (the `mu_x` the code uses is the ionic strength of the composition),
+electroneutrality when MacInnes scaling is on, `√I·√I = I`, the derivative rules of `sqrt`/`ln` (carried by the dual
+numbers), and for every parameter the relations `IRel` between the numbers `g, g′, exp, ᴱθ, ᴱθ′` it carries. -/
+theorem pitzer_gibbs_duhem (neutral : Nat → Bool) (n : Nat) (m d z : Nat → Rat) (I dI a0 mt : Rat) (icon : Bool) (ic : Nat)
+    (ue : Bool) (mc0 mc1 mcc : Option Rat) (ps : List (PParam Rat × DData))
+    (hwf : ∀ pq ∈ ps, pq.1.wf n) (htidy : ∀ pq ∈ ps, pq.1.tidy f neutral) (hrel : ∀ pq ∈ ps, IRel I dI pq.1 pq.2)
+    (hI2 : 2 * I = rsum n (fun k => m k * (z k * z k)))
+    (hneut : icon = true → rsum n (fun k => m k * z k) = 0)
+    (hs : f.sqrt I * f.sqrt I = I) (hs0 : f.sqrt I ≠ 0) (hb : 1 + 12 / 10 * f.sqrt I ≠ 0) :
+    letI := dualOps f
+    rsum n (fun k => m k * ((pitzer (dualInput n m d z I dI a0 mt icon ic ue mc0 mc1 mcc ps)).lgamma k).eps)
+      = (lit 2 * (pitzer (dualInput n m d z I dI a0 mt icon ic ue mc0 mc1 mcc ps)).osmot).eps := by
+  let _i : NumOps Dual := dualOps f
+  have hI : I ≠ 0 := by
+    intro h
+    have h2 : f.sqrt I * f.sqrt I = 0 := by rw [hs]; exact h
+    rcases mul_eq_zero.mp h2 with h' | h' <;> exact hs0 h'
+  set X := dualInput n m d z I dI a0 mt icon ic ue mc0 mc1 mcc ps with hX
+  set bigZ := bigZOf X with hZ
+  set pres := presentOf X with hP
+  have habs : ∀ k, absv (X.z k) = Dual.const |z k| := by
+    intro k
+    simp only [hX, dualInput, absv]
+    by_cases h : z k < 0
+    · have : (Dual.const (z k) < (lit 0 : Dual)) := h
+      rw [if_pos this, abs_of_neg h]; rfl
+    · have : ¬ (Dual.const (z k) < (lit 0 : Dual)) := h
+      rw [if_neg this, abs_of_nonneg (not_lt.mp h)]
+  have hZre : bigZ.re = rsum n (fun k => m k * |z k|) := by
+    rw [hZ]; simp only [bigZOf]
+    rw [show X.n = n from rfl, sumTo_re]
+    apply rsum_congr; intro k _
+    rw [habs k]; simp [hX, dualInput]
+  -- ε of lg1
+  set F := fTotal X (fDH X.a0 (sqrt X.mu) (lit (12 / 10))) with hF
+  set C := csumTotal X with hC
+  set T := allTerms X.ps X.m bigZ pres X.useEtheta with hT
+  have hlg1 : ∀ k, (lg1 X { active := false, b1 := lit (12 / 10), b2 := lit (12 / 10) } k).eps
+      = (addTerms T k (lit 0)).eps + (z k * z k) * F.eps + |z k| * C.eps := by
+    intro k
+    simp only [lg1, Bool.false_eq_true, if_false]
+    rw [habs k]
+    by_cases h0 : z k = 0
+    · have hz : isZero (Dual.const |z k|) = true := (isZero_const f _).mpr (by simp [h0])
+      rw [if_pos hz]; simp only [h0, mul_zero, zero_mul, abs_zero, add_zero]; rfl
+    · have hz : ¬ (isZero (Dual.const |z k|) = true) := fun h => h0 (abs_eq_zero.mp ((isZero_const f _).mp h))
+      rw [if_neg hz]
+      simp only [d_add_eps, d_mul_eps, d_mul_re, d_const_re, d_const_eps, mul_zero, zero_mul, add_zero]
+      rw [abs_mul_abs_self, ← add_assoc]
+  have hidx : ∀ t ∈ T, t.1 < n := by
+    intro t ht
+    simp only [hT, allTerms, hX, dualInput, List.mem_flatMap, List.mem_map, List.mem_append] at ht
+    obtain ⟨pD, ⟨pq, hp, rfl⟩, hmem⟩ := ht
+    rcases hmem with hm | hm
+    · rw [(toDualI_const f pq.1 pq.2 _ _ _).1] at hm
+      exact lnTermsConst_idx n pq.1 (hwf pq hp) _ _ _ f t hm
+    · exact lnTermsI_idx f n pq.1 pq.2 (hwf pq hp) _ _ t hm
+  have hsum := rsum_addTerms f n m T (fun _ => (lit 0 : Dual)) hidx
+  have h0 : rsum n (fun _ => (0 : Rat)) = 0 := by
+    have := rsum_mul_right n (fun _ => (0 : Rat)) 0
+    simpa using this
+  -- the left-hand side
+  have hL : rsum n (fun k => m k * ((pitzer X).lgamma k).eps)
+      = wsum m T + 2 * I * F.eps + bigZ.re * C.eps := by
+    have e : (fun k => m k * ((pitzer X).lgamma k).eps)
+        = fun k => (m k * (addTerms T k (lit 0)).eps + (m k * (z k * z k)) * F.eps + (m k * |z k|) * C.eps)
+            + (m k * z k) * (if icon then (phimac X { active := false, b1 := lit (12 / 10), b2 := lit (12 / 10) }).eps else 0) := by
+      funext k
+      simp only [pitzer, pitzerP]
+      have hic : X.icon = icon := rfl
+      have hzk : X.z k = Dual.const (z k) := rfl
+      rw [hic]
+      cases icon
+      · simp only [Bool.false_eq_true, if_false, hlg1 k]; ring
+      · simp only [if_true, d_add_eps, d_mul_eps, hzk, d_const_re, d_const_eps, hlg1 k]; ring
+    rw [e, rsum_add, rsum_add, rsum_add, hsum, rsum_mul_right n (fun k => m k * (z k * z k)),
+      rsum_mul_right n (fun k => m k * |z k|), rsum_mul_right n (fun k => m k * z k), ← hI2, ← hZre]
+    simp only [d_lit_eps, mul_zero, h0]
+    cases icon
+    · simp
+    · simp [hneut rfl]
+  rw [hL]
+  -- expand the sums over the parameters
+  have hTsum : wsum m T = (ps.map fun pq => wsum m (lnTermsConst (pq.1.toDualI pq.2) (fun k => Dual.mk (m k) (d k)) bigZ pres
+        ++ lnTermsI (pq.1.toDualI pq.2) (fun k => Dual.mk (m k) (d k)) ue)).sum := by
+    simp only [hT, allTerms, hX, dualInput]
+    rw [wsum_flatMap, List.map_map]; rfl
+  have hFeps : F.eps = (fDH (Dual.const a0) (sqrt (Dual.mk I dI)) (lit (12 / 10))).eps
+      + (ps.map fun pq => (fVar (pq.1.toDualI pq.2) (fun k => Dual.mk (m k) (d k)) (Dual.mk I dI) ue).eps).sum := by
+    simp only [hF, fTotal, hX, dualInput]
+    rw [foldl_add_eps f, List.map_map]; rfl
+  have hCeps : C.eps = (ps.map fun pq => (csumOf (pq.1.toDualI pq.2) (fun k => Dual.mk (m k) (d k))).eps).sum := by
+    simp only [hC, csumTotal, hX, dualInput]
+    rw [foldl_add_eps f, List.map_map]; simp [Function.comp_def]
+  have hO : ((pitzer X).osmot).eps = (osmot0 (Dual.const a0) (Dual.mk I dI) (sqrt (Dual.mk I dI))).eps
+      + (ps.map fun pq => (osConst (pq.1.toDualI pq.2) (fun k => Dual.mk (m k) (d k)) bigZ pres
+            + osI (pq.1.toDualI pq.2) (fun k => Dual.mk (m k) (d k)) (Dual.mk I dI) ue).eps).sum := by
+    simp only [pitzer, pitzerP, osmotTotal]
+    rw [foldl_add_eps f]
+    simp only [hX, dualInput, List.map_map]; rfl
+  have hdh := dh_gd f a0 I dI hs hs0 hb
+  have hps := sum_params_full f neutral ps I dI hI htidy hrel m d bigZ pres ue
+  simp only [d_mul_eps, d_lit_re, d_lit_eps, zero_mul, add_zero]
+  rw [hTsum, hFeps, hCeps, hO]
+  linarith
+
+end full
+
+end PhreeqcVerif.Pitzer
+
+/-! ## the source statements the models were written from (translator `tools/gen_pitzer.py`)
+
+Each theorem says: the statements of the named function in the *current* source, as regenerated into
+`Gen/GammaSrc.lean` on every run, are exactly the ones listed here (the ones the Lean model transcribes). Any edit of a
+modelled statement makes the obligation fail; the check then runs its failing-input search. -/
+namespace PhreeqcVerif.C16Src
+open PhreeqcVerif.Gen.GammaSrc
+
+/-- `pitzer()` — transcribed by `Pitzer.pitzerP`, `lg1`, `fDH`, `osmot0`, `gamclm`, `pcorrOf`, `lnTermsConst`, `lnTermsI`, `osConst`, `osI`, `fVar`, `csumOf` -/
+theorem pitzerStmts_as_modelled : pitzerStmts = [
+  "CONV=1.0/LOG_10",
+  "XX=0.0",
+  "OSUM=0.0",
+  "IPRSNT[i]=FALSE",
+  "M[i]=0.0",
+  "M[i]=under(spec[i]->lm)",
+  "if(M[i]>MIN_TOTAL)IPRSNT[i]=TRUE",
+  "}}if(ICON==TRUE){IPRSNT[IC]=TRUE",
+  "LGAMMA[i]=0.0",
+  "XX=XX+M[i]*fabs(spec[i]->z)",
+  "OSUM=OSUM+M[i]",
+  "}BIGZ=XX",
+  "DI=sqrt(I)",
+  "B=1.2",
+  "F=F1=F2=-A0*(DI/(1.0+B*DI)+2.0*log(1.0+B*DI)/B)",
+  "if(patm_x>1.0){LDBLEpap=0.0",
+  "pap=(7e-5+1.93e-9*pow(TK-250.0,2.0))*patm_x",
+  "B1=B-(pap>0.2?0.2:pap)",
+  "if(TK>263.0){pap=(9.65e-10*pow(TK-263.0,2.773))*pow(patm_x,0.623)",
+  "}B2=B-(pap>0.2?0.2:pap)",
+  "if(B1!=0)F1=-A0*(DI/(1.0+B1*DI)+2.0*log(1.0+B1*DI)/B1)",
+  "if(B2!=0)F2=-A0*(DI/(1.0+B2*DI)+2.0*log(1.0+B2*DI)/B2)",
+  "}XXX=2.0*DI",
+  "XXX=(1.0-(1.0+XXX-XXX*XXX*0.5)*exp(-XXX))/(XXX*XXX)",
+  "GAMCLM=F1",
+  "if(mcb0!=NULL)GAMCLM+=I*2.0*mcb0->p",
+  "if(mcb1!=NULL)GAMCLM+=I*2.0*mcb1->p*XXX",
+  "if(mcc0!=NULL)GAMCLM+=1.5*mcc0->p*I*I",
+  "CSUM=0.0",
+  "OSMOT=-(A0)*pow(I,(LDBLE)1.5)/(1.0+B*DI)",
+  "theta_params[i]->etheta=etheta",
+  "theta_params[i]->ethetap=ethetap",
+  "F_var=0",
+  "switch(pitz_params[i]->type){caseTYPE_B0:LGAMMA[i0]+=M[i1]*2.0*param",
+  "LGAMMA[i1]+=M[i0]*2.0*param",
+  "OSMOT+=M[i0]*M[i1]*param",
+  "caseTYPE_B1:if(param!=0.0){F_var=M[i0]*M[i1]*param*GP(l_alpha*DI)/I",
+  "LGAMMA[i0]+=M[i1]*2.0*param*G(l_alpha*DI)",
+  "LGAMMA[i1]+=M[i0]*2.0*param*G(l_alpha*DI)",
+  "OSMOT+=M[i0]*M[i1]*param*exp(-l_alpha*DI)",
+  "caseTYPE_B2:if(param!=0.0){F_var=M[i0]*M[i1]*param*GP(l_alpha*DI)/I",
+  "LGAMMA[i0]+=M[i1]*2.0*param*G(l_alpha*DI)",
+  "LGAMMA[i1]+=M[i0]*2.0*param*G(l_alpha*DI)",
+  "OSMOT+=M[i0]*M[i1]*param*exp(-l_alpha*DI)",
+  "caseTYPE_C0:CSUM+=M[i0]*M[i1]*pitz_params[i]->p/(2.0*sqrt(fabs(z0*z1)))",
+  "LGAMMA[i0]+=M[i1]*BIGZ*param/(2.0*sqrt(fabs(z0*z1)))",
+  "LGAMMA[i1]+=M[i0]*BIGZ*param/(2.0*sqrt(fabs(z0*z1)))",
+  "OSMOT+=M[i0]*M[i1]*BIGZ*param/(2.0*sqrt(fabs(z0*z1)))",
+  "caseTYPE_THETA:LGAMMA[i0]+=2.0*M[i1]*(param)",
+  "LGAMMA[i1]+=2.0*M[i0]*(param)",
+  "OSMOT+=M[i0]*M[i1]*param",
+  "F_var=M[i0]*M[i1]*ethetap",
+  "LGAMMA[i0]+=2.0*M[i1]*etheta",
+  "LGAMMA[i1]+=2.0*M[i0]*etheta",
+  "OSMOT+=M[i0]*M[i1]*(etheta+I*ethetap)",
+  "LGAMMA[i0]+=M[i1]*M[i2]*param",
+  "LGAMMA[i1]+=M[i0]*M[i2]*param",
+  "LGAMMA[i2]+=M[i0]*M[i1]*param",
+  "OSMOT+=M[i0]*M[i1]*M[i2]*param",
+  "caseTYPE_LAMBDA:LGAMMA[i0]+=M[i1]*param*pitz_params[i]->ln_coef[0]",
+  "LGAMMA[i1]+=M[i0]*param*pitz_params[i]->ln_coef[1]",
+  "OSMOT+=M[i0]*M[i1]*param*pitz_params[i]->os_coef",
+  "LGAMMA[i0]+=M[i1]*M[i2]*param",
+  "LGAMMA[i1]+=M[i0]*M[i2]*param",
+  "LGAMMA[i2]+=M[i0]*M[i1]*param",
+  "OSMOT+=M[i0]*M[i1]*M[i2]*param",
+  "LGAMMA[i0]+=M[i1]*M[i2]*param*pitz_params[i]->ln_coef[0]",
+  "LGAMMA[i1]+=M[i0]*M[i2]*param*pitz_params[i]->ln_coef[1]",
+  "LGAMMA[i2]+=M[i0]*M[i1]*param*pitz_params[i]->ln_coef[2]",
+  "OSMOT+=M[i0]*M[i1]*M[i2]*param*pitz_params[i]->os_coef",
+  "LGAMMA[i0]+=M[i1]*M[i2]*param",
+  "LGAMMA[i1]+=M[i0]*M[i2]*param",
+  "LGAMMA[i2]+=M[i0]*M[i1]*param",
+  "OSMOT+=M[i0]*M[i1]*M[i2]*param",
+  "}F+=F_var",
+  "F1+=F_var",
+  "F2+=F_var",
+  "F_var=(z0==1?F1:(z0==2.0?F2:F))",
+  "LGAMMA[i]+=z0*z0*F_var+z0*CSUM",
+  "}if(ICON==TRUE){PHIMAC=LGAMMA[IC]-GAMCLM",
+  "LGAMMA[i]=LGAMMA[i]+spec[i]->z*PHIMAC",
+  "}}COSMOT=1.0+2.0*OSMOT/OSUM",
+  "AW=exp(-OSUM*COSMOT/55.50837)",
+  "spec[i]->lg_pitzer=LGAMMA[i]*CONV"
+] := rfl
+
+/-- `G` — `Pitzer.G` -/
+theorem gStmts_as_modelled : gStmts = [
+  "if(L_Y!=0.0){d=2.0e0*(1.0e0-(1.0e0+L_Y)*exp(-L_Y))/(L_Y*L_Y)"
+] := rfl
+
+/-- `GP` — `Pitzer.GP` -/
+theorem gpStmts_as_modelled : gpStmts = [
+  "if(L_Y!=0.0){d=-2.0e0*(1.0e0-(1.0e0+L_Y+L_Y*L_Y/2.0e0)*exp(-L_Y))/(L_Y*L_Y)"
+] := rfl
+
+/-- `ETHETAS` — the `etheta`/`ethetap` pair (`IRel`: `ethetap` is d(etheta)/dI) -/
+theorem ethetasStmts_as_modelled : ethetasStmts = [
+  "*etheta=0.0",
+  "*ethetap=0.0",
+  "constLDBLEXCON=6.0e0*A0*sqrt(I)",
+  "constLDBLEXJK=XCON*ZZ",
+  "constLDBLEXJJ=XCON*ZJ*ZJ",
+  "constLDBLEXKK=XCON*ZK*ZK",
+  "*etheta=ZZ*(JAY_XJK-JAY_XJJ/2.0e0-JAY_XKK/2.0e0)/(4.0e0*I)",
+  "*ethetap=ZZ*(JPRIME_XJK-JPRIME_XJJ/2.0e0-JPRIME_XKK/2.0e0)/(8.0e0*I*I)-*etheta/I"
+] := rfl
+
+/-- `calc_pitz_param` — `Pitzer.calcParam` -/
+theorem calcParamStmts_as_modelled : calcParamStmts = [
+  "if(fabs(TK-TR)<0.001){param=pz_ptr->a[0]",
+  "}else{param=(pz_ptr->a[0]+pz_ptr->a[1]*(1.e0/TK-1.e0/TR)+pz_ptr->a[2]*log(TK/TR)+pz_ptr->a[3]*(TK-TR)+pz_ptr->a[4]*(TK*TK-TR*TR))+pz_ptr->a[5]*(1.e0/(TK*TK)-1.e0/(TR*TR))"
+] := rfl
+
+/-- `pitzer_tidy` — `lambdaCoefs`, `muLn`, `muOs`, alpha defaults -/
+theorem tidyStmts_as_modelled : tidyStmts = [
+  "if(equal(z0,1.0,1e-8)||equal(z1,1.0,1e-8)){order=1",
+  "}elseif(equal(z0,2.0,1e-8)&&equal(z1,2.0,1e-8)){order=2",
+  "}else{order=3",
+  "}if(pitz_params[i]->type==TYPE_B1){switch(order){case1:case3:pitz_params[i]->alpha=2.0",
+  "case2:pitz_params[i]->alpha=1.4",
+  "}}elseif(pitz_params[i]->type==TYPE_B2){switch(order){case1:pitz_params[i]->alpha=12.0",
+  "case2:pitz_params[i]->alpha=12.0",
+  "case3:pitz_params[i]->alpha=50.0",
+  "pitz_params[j]->alpha=pitz_params[i]->a[0]",
+  "pitz_params[j]->alpha=pitz_params[i]->a[1]",
+  "}if(spec[pitz_params[i]->ispec[j]]->z<0){}}if(count_neut==3){if(i0==i1&&i1==i2){pitz_params[i]->os_coef=1",
+  "}elseif(i0==i1||i1==i2||i0==i2){pitz_params[i]->os_coef=3",
+  "}else{pitz_params[i]->os_coef=6",
+  "}}if(i0==i1||i1==i2||i0==i2){pitz_params[i]->os_coef=3",
+  "}else{pitz_params[i]->os_coef=6",
+  "j++){if(spec[pitz_params[i]->ispec[j]]->z<0||spec[pitz_params[i]->ispec[j]]->z>0){if(count[0]>1||count[1]>1){pitz_params[i]->ln_coef[j]=3",
+  "}else{pitz_params[i]->ln_coef[j]=6",
+  "}if(count[j]==3){pitz_params[i]->ln_coef[j]=1",
+  "}elseif(count[j]==2){pitz_params[i]->ln_coef[j]=3",
+  "}elseif(count[j]==1){if(count[0]>1||count[1]>1){pitz_params[i]->ln_coef[j]=3",
+  "}else{pitz_params[i]->ln_coef[j]=6",
+  "if(i0==i1){pitz_params[i]->os_coef=0.5",
+  "pitz_params[i]->ln_coef[0]=1",
+  "pitz_params[i]->ln_coef[1]=1",
+  "}else{pitz_params[i]->os_coef=1",
+  "pitz_params[i]->ln_coef[0]=2",
+  "pitz_params[i]->ln_coef[1]=2"
+] := rfl
+
+/-- `sit()` — `Pitzer.sit`, `sitTerms`, `sitOs` -/
+theorem sitStmts_as_modelled : sitStmts = [
+  "XI=0.0e0",
+  "XX=0.0e0",
+  "OSUM=0.0e0",
+  "I=mu_x",
+  "if(spec[i]->lm>log_min){sit_M[i]=under(spec[i]->lm)",
+  "}else{sit_M[i]=0.0",
+  "sit_LGAMMA[i]=0.0",
+  "XX=XX+sit_M[i]*fabs(spec[i]->z)",
+  "XI=XI+sit_M[i]*spec[i]->z*spec[i]->z",
+  "OSUM=OSUM+sit_M[i]",
+  "}I=XI/2.0e0",
+  "I=mu_x",
+  "DI=sqrt(I)",
+  "AGAMMA=3*sit_A0",
+  "A=AGAMMA/LOG_10",
+  "B=1.5",
+  "F=-A*(DI/(1.0e0+B*DI))",
+  "T=1.0+B*DI",
+  "OSMOT=-2.0*A/(B*B*B)*(T-2.0*log(T)-1.0/T)",
+  "switch(sit_params[i]->type){caseTYPE_SIT_EPSILON:sit_LGAMMA[i0]+=sit_M[i1]*param",
+  "sit_LGAMMA[i1]+=sit_M[i0]*param",
+  "if(z0==0.0&&z1==0.0){OSMOT+=sit_M[i0]*sit_M[i1]*param/2.0",
+  "}else{OSMOT+=sit_M[i0]*sit_M[i1]*param",
+  "caseTYPE_SIT_EPSILON_MU:sit_LGAMMA[i0]+=sit_M[i1]*I*param",
+  "sit_LGAMMA[i1]+=sit_M[i0]*I*param",
+  "OSMOT+=sit_M[i0]*sit_M[i1]*param",
+  "if(z0==0.0&&z1==0.0){OSMOT+=sit_M[i0]*sit_M[i1]*param*I/2.0",
+  "}else{OSMOT+=sit_M[i0]*sit_M[i1]*param*I",
+  "sit_LGAMMA[i]+=z0*z0*F",
+  "}COSMOT=1.0e0+OSMOT*LOG_10/OSUM",
+  "AW=exp(-OSUM*COSMOT/55.50837e0)",
+  "spec[i]->lg_pitzer=sit_LGAMMA[i]"
+] := rfl
+
+/-- `calc_sit_param` — `Pitzer.calcSitParam` -/
+theorem calcSitParamStmts_as_modelled : calcSitParamStmts = [
+  "if(fabs(TK-TR)<0.01){param=pz_ptr->a[0]",
+  "}else{param=(pz_ptr->a[0]+pz_ptr->a[1]*(1.e0/TK-1.e0/TR)+pz_ptr->a[2]*log(TK/TR)+pz_ptr->a[3]*(TK-TR)+pz_ptr->a[4]*(TK*TK-TR*TR))"
+] := rfl
+
+/-- `gammas()` aqueous branches — `Gamma.lgOf`, `davies`, `wateq`, `bdot`, `co2Poly`, `clampMu`, `searchGo`, `weight`, `blend` -/
+theorem gammasStmts_as_modelled : gammasStmts = [
+  "if(mu<=0)mu=1e-10",
+  "a_llnl=b_llnl=bdot_llnl=log_g_co2=dln_g_co2=c2_llnl=0",
+  "a=DH_A",
+  "b=DH_B",
+  "if(llnl_temp.size()>0){ifirst=0",
+  "ilast=(int)llnl_temp.size()",
+  "i++){if(tc_x>=llnl_temp[i])ifirst=i",
+  "if(tc_x<=llnl_temp[i]){ilast=i",
+  "}}if(ilast==ifirst){f=1",
+  "}else{f=(tc_x-llnl_temp[ifirst])/(llnl_temp[ilast]-llnl_temp[ifirst])",
+  "}a_llnl=(1-f)*llnl_adh[ifirst]+f*llnl_adh[ilast]",
+  "b_llnl=(1-f)*llnl_bdh[ifirst]+f*llnl_bdh[ilast]",
+  "bdot_llnl=(1-f)*llnl_bdot[ifirst]+f*llnl_bdot[ilast]",
+  "log_g_co2=(llnl_co2_coefs[0]+llnl_co2_coefs[1]*tk_x+llnl_co2_coefs[2]/tk_x)*mu-(llnl_co2_coefs[3]+llnl_co2_coefs[4]*tk_x)*(mu/(mu+1))",
+  "}muhalf=sqrt(mu)",
+  "i++){switch(s_x[i]->gflag){case0:s_x[i]->lg=s_x[i]->dhb*mu",
+  "case1:s_x[i]->lg=-s_x[i]->z*s_x[i]->z*a*(muhalf/(1.0+muhalf)-0.3*mu)",
+  "case2:s_x[i]->lg=-a*muhalf*s_x[i]->z*s_x[i]->z/(1.0+s_x[i]->dha*b*muhalf)+s_x[i]->dhb*mu",
+  "case3:s_x[i]->lg=0.0",
+  "case5:s_x[i]->lg=0.0",
+  "}else{s_x[i]->lg=0.0",
+  "case7:if(llnl_temp.size()>0){if(s_x[i]->z==0){s_x[i]->lg=0.0",
+  "}else{s_x[i]->lg=-a_llnl*muhalf*s_x[i]->z*s_x[i]->z/(1.0+s_x[i]->dha*b_llnl*muhalf)+bdot_llnl*mu",
+  "case8:if(llnl_temp.size()>0){s_x[i]->lg=log_g_co2",
+  "case9:s_x[i]->lg=log10(exp(s_h2o->la*LOG_10)*gfw_water)"
+] := rfl
+
+/-- `read_species` — `Gamma.defaultAssign`, `applyOpt` -/
+theorem readSpeciesStmts_as_modelled : readSpeciesStmts = [
+  "}s_ptr->gflag=2",
+  "i=sscanf(next_char,SCANFORMATSCANFORMAT,&s_ptr->dha,&s_ptr->dhb)",
+  "}s_ptr->gflag=7",
+  "i=sscanf(next_char,SCANFORMAT,&s_ptr->dha)",
+  "}s_ptr->gflag=8",
+  "}s_ptr->gflag=9",
+  "s_ptr->dha=0.0",
+  "s_ptr->dhb=0.0",
+  "if(equal(s_ptr->z,0.0,TOL)==TRUE){s_ptr->gflag=0",
+  "s_ptr->dhb=0.1",
+  "}else{s_ptr->gflag=1",
+  "s_eminus->gflag=3",
+  "s_h2o->gflag=3"
+] := rfl
+
+end PhreeqcVerif.C16Src
+
+namespace PhreeqcVerif.Pitzer
+open NumOps
+
+def exF : TransFns Rat := ⟨id, id, id, id, id, id, id, id, id, id⟩
+def exB1 : PParam Rat :=
+  ⟨.b1, 0, 1, 2, 1 / 5, 2, 0, 0, 0, 0, 1 / 2, 1 / 4, 3 / 4, 0, 0⟩
+def exEth : PParam Rat :=
+  ⟨.etheta, 0, 1, 2, 1, 2, 0, 0, 0, 0, 0, 0, 0, 1 / 10, 1 / 20⟩
+def exPs : List (PParam Rat × DData) :=
+  [(exB1, { dg := 1 / 8, dgp := 1 / 3, dex := 11 / 24, dE := 0, dEp := 0 }),
+   (exEth, { dg := 0, dgp := 0, dex := 0, dE := 1 / 40, dEp := 7 })]
+
+/-- non-vacuity of `pitzer_gibbs_duhem`: its hypotheses hold together on a concrete instance (two ions `z = ±1`, `m = (1, 1)`,
+`I = 1` with `sqrt 1 = 1`, a β¹ and an ᴱθ parameter with consistent derivative data, MacInnes scaling on) -/
+example : letI := dualOps exF
+    rsum 2 (fun k => (fun _ => (1 : Rat)) k *
+        ((pitzer (dualInput 2 (fun _ => 1) (fun k => if k = 0 then 1 else 0) (fun k => if k = 0 then 1 else -1) 1 (1 / 2) (2 / 5) 0
+          true 1 true (some (1 / 20)) none none exPs)).lgamma k).eps)
+      = (lit 2 * (pitzer (dualInput 2 (fun _ => 1) (fun k => if k = 0 then 1 else 0) (fun k => if k = 0 then 1 else -1) 1 (1 / 2) (2 / 5) 0
+          true 1 true (some (1 / 20)) none none exPs)).osmot).eps :=
+  pitzer_gibbs_duhem exF (fun _ => false) 2 (fun _ => 1) (fun k => if k = 0 then 1 else 0) (fun k => if k = 0 then 1 else -1)
+    1 (1 / 2) (2 / 5) 0 true 1 true (some (1 / 20)) none none exPs
+    (by intro pq h; simp [exPs] at h; rcases h with rfl | rfl <;> simp [PParam.wf, exB1, exEth, uses3])
+    (by intro pq h; simp [exPs] at h; rcases h with rfl | rfl <;> simp [PParam.tidy, exB1, exEth])
+    (by intro pq h; simp [exPs] at h; rcases h with rfl | rfl <;> norm_num [IRel, exB1, exEth])
+    (by norm_num [rsum]) (by intro _; norm_num [rsum]) (by simp [exF]) (by simp [exF]) (by norm_num [exF])
 
 end PhreeqcVerif.Pitzer
